@@ -222,7 +222,13 @@ impl FileSystem for MemoryFS {
         let content = Arc::new(Vec::<u8>::new());
         #[cfg(feature = "verif-hooks")]
         crate::verif_hooks::yield_point("memory::create_file::write");
-        self.handle.write().unwrap().files.insert(
+        let mut handle = self.handle.write().unwrap();
+        if let Some(existing) = handle.files.get(path) {
+            if existing.file_type == VfsFileType::Directory {
+                return Err(VfsErrorKind::Other("Path is a directory".into()).into());
+            }
+        }
+        handle.files.insert(
             path.to_string(),
             MemoryFile {
                 file_type: VfsFileType::File,
@@ -232,6 +238,7 @@ impl FileSystem for MemoryFS {
                 accessed: Some(SystemTime::now()),
             },
         );
+        drop(handle);
         let writer = WritableFile {
             content: Cursor::new(vec![]),
             destination: path.to_string(),
